@@ -19,6 +19,7 @@ type Config struct {
 	Solver       string // z3 | z3-new | cvc5
 	CrossSolver  string // optional second solver for deciding (assertion) queries
 	TimeoutMs    int
+	IncTimeoutMs int // timeout of the incremental solver before the one-shot fallback
 	MaxPaths     int
 	MaxSteps     int64
 	MaxDepth     int
@@ -42,6 +43,12 @@ func (c *Config) defaults() {
 	}
 	if c.TimeoutMs == 0 {
 		c.TimeoutMs = 60000
+	}
+	if c.IncTimeoutMs == 0 {
+		c.IncTimeoutMs = 1000
+		if v, ok := c.Params["inc_timeout_ms"]; ok {
+			c.IncTimeoutMs = v
+		}
 	}
 	if c.MaxPaths == 0 {
 		c.MaxPaths = 2000000
@@ -82,8 +89,9 @@ const (
 
 // shared holds immutable / synchronised state shared by all workers of a run.
 type shared struct {
-	prog    *ssa.Program
-	fnNames sync.Map
+	prog      *ssa.Program
+	fnNames   sync.Map
+	pbMethods sync.Map
 }
 
 // State of one path execution.
@@ -108,6 +116,7 @@ type interpreter struct {
 	decisions []int
 	forced    []bool
 	pcLen     int
+	pcTerms   []*Term
 	steps     int64
 	nondets   []nondetRec
 	observes  []observeRec
@@ -118,6 +127,7 @@ type interpreter struct {
 	model      Model
 	modelValid bool
 	uncertain  bool // a feasibility query came back unknown on this path
+	preferOneShot bool
 
 	mapOrderFork    bool
 	goMode          goMode
@@ -152,6 +162,7 @@ func (i *interpreter) noteFunc(fn *ssa.Function) {
 // ---------------------------------------------------------------- decisions
 
 func (i *interpreter) assertPC(t *Term) {
+	i.pcTerms = append(i.pcTerms, t)
 	i.solver.Assert(t)
 	if i.cross != nil {
 		i.cross.Assert(t)
@@ -237,13 +248,63 @@ func (i *interpreter) decide(c *Term) bool {
 
 // check asks whether pc ∧ extra is satisfiable; on Sat it returns a model of it.
 func (i *interpreter) check(extra *Term) (Result, Model) {
-	res, kept := i.solver.CheckKeep(extra)
-	if !kept {
+	if i.preferOneShot && i.w.oneshot != nil {
+		return i.checkOneShot(extra)
+	}
+	var res Result
+	var kept bool
+	if extra != nil {
+		res, kept = i.solver.CheckKeep(extra)
+	} else {
+		res, kept = i.solver.CheckKeep()
+	}
+	if kept {
+		m := i.readModel()
+		i.solver.Pop()
+		return res, m
+	}
+	if res == Unknown && i.w.oneshot != nil {
+		// the incremental core is out of its depth on this path condition: stay one-shot
+		return i.checkOneShot(extra)
+	}
+	return res, nil
+}
+
+// checkOneShot re-asks a query the incremental solver gave up on (short timeout) in a
+// fresh non-incremental context: z3 then applies its full tactic pipeline (simplification,
+// bit-blasting, SAT), which decides many bit-vector arithmetic queries that the
+// incremental core does not.
+func (i *interpreter) checkOneShot(extra *Term) (Result, Model) {
+	s := i.w.oneshot
+	s.HardReset()
+	for _, t := range i.pcTerms {
+		s.Assert(t)
+	}
+	if extra != nil {
+		s.Assert(extra)
+	}
+	i.w.ex.mu.Lock()
+	i.w.ex.rep.OneShot++
+	i.w.ex.mu.Unlock()
+	res := s.Check()
+	if res != Sat {
 		return res, nil
 	}
-	m := i.readModel()
-	i.solver.Pop()
-	return res, m
+	var vars []*Term
+	for _, n := range i.nondets {
+		if n.Term != nil {
+			vars = append(vars, n.Term)
+		}
+	}
+	vals, err := s.Values(vars)
+	if err != nil {
+		return Unknown, nil
+	}
+	m := Model{}
+	for k, v := range vars {
+		m[v.Name] = vals[k]
+	}
+	return Sat, m
 }
 
 func (i *interpreter) readModel() Model {
@@ -290,23 +351,31 @@ func (i *interpreter) pickValue(t *Term) (uint64, bool) {
 			return v.Uint64(), true
 		}
 	}
-	res, kept := i.solver.CheckKeep()
-	if !kept {
+	res, m := i.check(nil)
+	if res != Sat || m == nil {
 		if res == Unknown {
 			i.uncertain = true
 			i.w.noteUnknown("pickValue: solver unknown")
 		}
 		return 0, false
 	}
-	defer i.solver.Pop()
-	vals, err := i.solver.Values([]*Term{t})
-	if err != nil {
-		return 0, false
+	i.model, i.modelValid = m, true
+	v, ok := i.ts.Eval(t, m, map[int]*big.Int{})
+	if !ok {
+		// term not evaluable from the variables alone (uninterpreted functions): ask directly
+		r2, kept := i.solver.CheckKeep()
+		if !kept {
+			_ = r2
+			return 0, false
+		}
+		defer i.solver.Pop()
+		vals, err := i.solver.Values([]*Term{t})
+		if err != nil {
+			return 0, false
+		}
+		return vals[0].Uint64(), true
 	}
-	if m := i.readModel(); m != nil {
-		i.model, i.modelValid = m, true
-	}
-	return vals[0].Uint64(), true
+	return v.Uint64(), true
 }
 
 // ---------------------------------------------------------------- explorer
@@ -343,6 +412,7 @@ type Report struct {
 	Samples      []Sample
 	Wall         time.Duration
 	Truncated    bool
+	OneShot      int
 }
 
 type Explorer struct {
@@ -398,10 +468,11 @@ func (ex *Explorer) finish() {
 }
 
 type worker struct {
-	ex     *Explorer
-	ts     *TermStore
-	solver *Solver
-	cross  *Solver
+	ex      *Explorer
+	ts      *TermStore
+	solver  *Solver
+	oneshot *Solver
+	cross   *Solver
 	id     int
 }
 
@@ -424,11 +495,14 @@ func Explore(prog *ssa.Program, entry *ssa.Function, cfg Config) (*Report, error
 	errs := make(chan error, cfg.Workers)
 	for k := 0; k < cfg.Workers; k++ {
 		ts := NewTermStore()
-		s, err := NewSolver(cfg.Solver, ts, cfg.TimeoutMs)
+		s, err := NewSolver(cfg.Solver, ts, cfg.IncTimeoutMs)
 		if err != nil {
 			return nil, err
 		}
 		w := &worker{ex: ex, ts: ts, solver: s, id: k}
+		if os1, err := NewSolver(cfg.Solver, ts, cfg.TimeoutMs); err == nil {
+			w.oneshot = os1
+		}
 		if cfg.CrossSolver != "" {
 			c, err := NewSolver(cfg.CrossSolver, ts, cfg.TimeoutMs)
 			if err != nil {
@@ -440,6 +514,9 @@ func Explore(prog *ssa.Program, entry *ssa.Function, cfg Config) (*Report, error
 		go func() {
 			defer wg.Done()
 			defer w.solver.Close()
+			if w.oneshot != nil {
+				defer w.oneshot.Close()
+			}
 			if w.cross != nil {
 				defer w.cross.Close()
 			}
@@ -453,7 +530,7 @@ func Explore(prog *ssa.Program, entry *ssa.Function, cfg Config) (*Report, error
 			}
 			ex.mu.Lock()
 			st := &ex.rep.Stats
-			for _, sv := range []*Solver{w.solver, w.cross} {
+			for _, sv := range []*Solver{w.solver, w.cross, w.oneshot} {
 				if sv == nil {
 					continue
 				}
@@ -653,21 +730,16 @@ func (i *interpreter) vector(extra *Term) (vec []uint64, names []string, ok bool
 			vals = append(vals, x)
 		}
 	} else {
-		var res Result
-		var kept bool
-		if extra != nil {
-			res, kept = i.solver.CheckKeep(extra)
-		} else {
-			res, kept = i.solver.CheckKeep()
-		}
-		if !kept {
+		res, m := i.check(extra)
+		if res != Sat || m == nil {
 			return nil, nil, false, res != Unknown
 		}
-		defer i.solver.Pop()
-		var err error
-		vals, err = i.solver.Values(vars)
-		if err != nil {
-			return nil, nil, false, false
+		for _, v := range vars {
+			x, ok := m[v.Name]
+			if !ok {
+				x = big.NewInt(0)
+			}
+			vals = append(vals, x)
 		}
 	}
 	k := 0
